@@ -50,6 +50,11 @@ Proof.
   - rewrite events_app, events_map_Out. simpl. apply Permutation_cons_app. apply IH.
 Qed.
 
+Lemma silent_stage_outs : forall f t, outs (silent_stage f t) = map f (outs t).
+Proof. intros f. induction t as [|[e|a] t IH]; simpl; auto. now rewrite IH. Qed.
+Lemma silent_stage_events : forall f t, events (silent_stage f t) = events t.
+Proof. intros f. induction t as [|[e|a] t IH]; simpl; auto. now rewrite IH. Qed.
+
 Lemma skip_stage_outs : forall s p t j f, outs (skip_stage s p j f t) = outs t.
 Proof.
   intros s p. induction t as [|[e|a] t IH]; intros j f; simpl; auto.
@@ -80,13 +85,14 @@ Lemma run_stage_spec : forall s p st pt,
   Permutation (all_events (run_stage s p st pt)) (all_events pt ++ own_events s p st (all_outs pt)).
 Proof.
   intros s p st [cr b]. unfold all_outs, all_events.
-  destruct st as [f|q|g|m| |wi h| ]; simpl.
+  destruct st as [f|q|g|m| |wi h| |f0]; simpl.
   1-4: (split; [apply lazy_stage_outs |
                 rewrite <- app_assoc; apply Permutation_app_head; apply lazy_stage_events]).
   - rewrite outs_map_Out, events_map_Out, !app_nil_r. split; auto.
   - rewrite outs_map_Out, events_map_Out, app_nil_r. split; auto. apply perm_insert.
   - rewrite outs_app, outs_map_Ev, events_app, events_map_Ev. simpl. rewrite app_nil_r. split; auto.
     apply perm_insert.
+  - rewrite silent_stage_outs, silent_stage_events, app_nil_r. split; auto.
 Qed.
 
 Lemma run_from_spec : forall stages s p pt,
@@ -273,7 +279,8 @@ Proof.
   assert (Henum : forall l, In e (enum_events s p 0 l) -> estage e = s /\ epart e = p).
   { intros l Hl. apply enum_events_in in Hl. destruct Hl as (H1 & H2 & _). split; auto.
     apply epart_of_pid; auto. }
-  destruct st as [f|q|g|m| |wi h| ]; simpl in H; eauto.
+  destruct st as [f|q|g|m| |wi h| |f0]; simpl in H; eauto.
+  4: contradiction.
   - contradiction.
   - destruct H as [H|[]]. subst e. unfold call_event. destruct wi; simpl; split; auto.
     destruct (p =? -1) eqn:E; auto. apply Z.eqb_eq in E. lia.
